@@ -64,7 +64,7 @@ let parse_doc (toks : string list) : M.doc * string list =
     | k -> raise (Doc_error ("unknown inline " ^ k)) in
   let cell () = expect "("; expect "Cell"; many inline [] in
   let row () = expect "("; expect "Row"; many cell [] in
-  let rec block () : M.block =
+  let rec block () : M.block0 =
     expect "(";
     let k = next () in
     match k with
